@@ -1,7 +1,7 @@
 // Harness for property C18 (2FA SRP answer).
 //
 //	gen <tier> <cases-out>    generate cases, run the implementation and the reference server, write the case file
-//	probe <cases-out>         truncated-key collision probe: sequential x cases in one process (see cmdProbe)
+//	probe <cases-out> [tier]  one-factor-at-a-time call history + truncated-key collision probe: sequential x cases in one process (see cmdProbe)
 //	seq <file>                run the calls listed in the file (one argument list of `one` per line) in order in ONE process
 //	one <kind> <fields...>    re-run one case line (fields as in the case file, inputs only) and print the fresh result fields
 //
@@ -1151,7 +1151,7 @@ func buildAP(apkind string, srpB []byte, srpid int64, s1, s2 []byte, g int32, P 
 // one process: A against A's verifier (accept), B against A's verifier (REJECT), B against B's verifier
 // (accept), A against B's verifier (REJECT).  The lines are ordinary x cases: they are also compared with
 // the model and re-run one by one in fresh processes.
-func cmdProbe(path string) {
+func cmdProbe(path, tier string) {
 	r := vc.NewRng(vc.Seed() ^ 0x18c0111de)
 	real := realGroup()
 	s1, s2 := r.Bytes(40), r.Bytes(16)
@@ -1211,8 +1211,95 @@ func cmdProbe(path string) {
 		}
 		fmt.Printf("stat\tprobe:%s\t1\n", sl.name)
 	}
-	out.Close()
 	fmt.Printf("stat\tprobe:candidates\t%d\n", tried)
+
+	// ---- one-factor-at-a-time history (same process, same goroutine, order fixed by the seed) ----
+	// A memo whose key omits one of the inputs answers the second of two calls that differ ONLY in that input
+	// from stale state.  For each base case every input is varied alone: base, variant, base, ...; each variant
+	// twice in a row; variants back to back; and after each call its wrong-password counterpart (same other
+	// inputs, typed password differs from the registered one) and the call again.  Every call is judged by the
+	// reference server for ITS OWN inputs.
+	bases := 1
+	if tier == "thorough" {
+		bases = 3
+	}
+	type call struct {
+		name           string
+		reg, typed     string
+		s1, s2         []byte
+		b              *big.Int
+		random         []byte
+		g              group
+		gval           int32
+		sameAsPrevious bool
+	}
+	ofat := 0
+	for bi := 0; bi < bases; bi++ {
+		oddp := oddModulus(r, 2047)
+		g1 := group{"odd2047", pad(oddp), oddp, "orac"}
+		pw := randPassword(r)
+		base := call{name: "base", reg: pw, typed: pw, s1: r.Bytes(8 + r.Intn(40)), s2: r.Bytes(8 + r.Intn(24)),
+			b: num(r.Bytes(256)), random: r.Bytes(256), g: real, gval: 3}
+		vary := func(name string, f func(c *call)) call {
+			c := base
+			c.name = name
+			f(&c)
+			return c
+		}
+		other := func(b []byte) []byte { // same length, different content
+			o := r.Bytes(len(b))
+			o[0] = b[0] ^ 0x5a
+			return o
+		}
+		vS2 := vary("only salt2 differs", func(c *call) { c.s2 = other(base.s2) })
+		vS1 := vary("only salt1 differs", func(c *call) { c.s1 = other(base.s1) })
+		pw2 := pw + "'"
+		vPW := vary("only the password differs", func(c *call) { c.reg, c.typed = pw2, pw2 })
+		vB := vary("only B differs", func(c *call) { c.b = num(r.Bytes(256)) })
+		vR := vary("only the client random differs", func(c *call) { c.random = r.Bytes(256) })
+		vg := vary("only g differs", func(c *call) { c.gval = 7 })
+		vP := vary("only p differs", func(c *call) { c.g = g1 })
+		vS2l := vary("only salt2 differs (longer)", func(c *call) { c.s2 = append(append([]byte(nil), base.s2...), 0x01) })
+		variants := []call{vS2, vS1, vPW, vB, vR, vg, vP, vS2l}
+		wrong := func(c call) call { // typed password differs, everything else as in c
+			w := c
+			w.name = c.name + " + WRONG password typed"
+			if c.typed == pw2 {
+				w.typed = pw
+			} else {
+				w.typed = pw2
+			}
+			return w
+		}
+		var seq []call
+		seq = append(seq, base)
+		for _, v := range variants { // base, variant, base, ...
+			seq = append(seq, v, base)
+		}
+		for _, v := range variants { // each variant twice in a row
+			seq = append(seq, v, v)
+		}
+		seq = append(seq, variants...) // variants back to back, and around again
+		seq = append(seq, variants[0], variants[2], variants[1])
+		for _, c := range append([]call{base}, variants...) { // wrong-password counterpart in the same adjacency
+			seq = append(seq, c, wrong(c), c)
+		}
+		for i, c := range seq {
+			n++
+			ofat++
+			o := xopts{g: c.g, gval: c.gval, pw: c.reg, typed: c.typed, s1: c.s1, s2: c.s2, b: c.b, random: c.random,
+				extraTag: fmt.Sprintf("ofat: base %d call %d of %d in one process: %s", bi+1, i+1, len(seq), c.name)}
+			if c.reg == c.typed {
+				o.typed = ""
+			}
+			oc := exchange(fmt.Sprintf("p%04d", n), o, r.Fork(uint64(1000+i))) // the slice layout varies from call to call
+			for _, l := range oc.lines {
+				out.Line(l)
+			}
+		}
+	}
+	out.Close()
+	fmt.Printf("stat\tprobe:one-factor-at-a-time calls\t%d\n", ofat)
 }
 
 func main() {
@@ -1221,7 +1308,11 @@ func main() {
 		return
 	}
 	if len(os.Args) >= 3 && os.Args[1] == "probe" {
-		cmdProbe(os.Args[2])
+		tier := "quick"
+		if len(os.Args) >= 4 {
+			tier = os.Args[3]
+		}
+		cmdProbe(os.Args[2], tier)
 		return
 	}
 	if len(os.Args) >= 3 && os.Args[1] == "seq" { // one process, the calls of the file in order (one "one" argument list per line)
